@@ -321,7 +321,7 @@ func (c *cors) headerIsAllowed(r *http.Request) bool {
 	}
 
 	for _, v := range strings.Split(h, ",") {
-		if slices.Index(c.AllowHeaders, strings.TrimSpace(v)) < 0 {
+		if !slices.ContainsFunc(c.AllowHeaders, func(h string) bool { return strings.EqualFold(h, strings.TrimSpace(v)) }) {
 			return false
 		}
 	}
